@@ -1428,8 +1428,12 @@ class SyncedStackedTransforms(StackedTransforms):
         except ImportError:  # pragma: no cover
             pass
 
-        fn.__code__ = code
+        # The code refers to the function through the token, which must
+        # therefore be in place before the code is (another thread may
+        # be calling the function)
+        if token is not None:
+            fn.__globals__[token] = fn
         fn.__ptera_info__ = info
         fn.__ptera_token__ = token
         fn.__ptera_discard__ = False
-        fn.__globals__[fn.__ptera_token__] = fn
+        fn.__code__ = code
